@@ -331,6 +331,12 @@ def do_setup():
         print(out[-3000:])
         print("setup: cargo build FAILED")
         return 1
+    try:
+        import fuzzgen
+        okf, msg = fuzzgen.build()
+        print("setup: fuzz targets:", msg)
+    except Exception as e:  # the guided generator is optional search support
+        print("setup: fuzz targets not built:", repr(e)[:200])
     print("setup ok in %.1fs" % (time.time() - t0))
     return 0
 
